@@ -238,12 +238,12 @@ var apis = []string{"persist", "subscribe-replay", "upcast-source", "upcast-targ
 
 // Case: one shape through one API, with generated values around it.
 type Case struct {
-	Shape   int      `json:"shape"`
-	API     string   `json:"api"`
-	IDs     []int    `json:"ids"`      // ids of the subject events
-	Strings []string `json:"strings"`  // their string payloads (cyclic)
-	Noise   []int    `json:"noise"`    // shapes of other events published in between (never the subject's)
-	StoreFirst bool  `json:"store_first,omitempty"` // option order
+	Shape      int      `json:"shape"`
+	API        string   `json:"api"`
+	IDs        []int    `json:"ids"`                   // ids of the subject events
+	Strings    []string `json:"strings"`               // their string payloads (cyclic)
+	Noise      []int    `json:"noise"`                 // shapes of other events published in between (never the subject's)
+	StoreFirst bool     `json:"store_first,omitempty"` // option order
 }
 
 func Run(c *Case) *vkit.Outcome {
